@@ -18,7 +18,11 @@ RULE = ("case = valid workflow of 1-6 (thorough 10) targets over a file pool who
         "dependents (exact inverse), provides, unresolved, endpoints from Graph.from_targets equal the relations "
         "computed from normalised resolved paths; `gwf info` JSON reports the same dependencies/dependents. "
         "Non-trivial: some dependency edge joins occurrences whose texts differ, or two occurrences with equal text "
-        "resolve to different files. Distinct = SHA-1 of canonical case JSON.")
+        "resolve to different files. "
+        "Also: `gwf info` with two names and a pattern at once; the Target objects are edited (an input "
+        "dropped or added) after a first graph was built and the graph is built again from the same objects "
+        "(oracle = model of the edited description); invocation styles of project.Project for the info tier. "
+        "Distinct = SHA-1 of canonical case JSON.")
 ASSUMPTIONS = [
     "un-normalised absolute spellings (/p/./x) are not generated: the anchor says absolute paths are kept as given",
     "symbolic links are not generated (normalisation is textual by design)",
